@@ -205,8 +205,10 @@ func generate(prop, tier string, seed uint64, jl *jobList) int {
 			budgets = []int{1, 2, 3, 4, 5, 6, 7, 8}
 		}
 		genLeafRuns(r, leafKinds(), budgets, true, jl.addFlow)
+		genWaitCancelRuns(r, leafKinds(), jl.addFlow)
 	case "C02":
 		genLeafRuns(r, leafKinds(), []int{1, 2, 3, 4, 5, 6, 7, 8}, thorough, jl.addFlow)
+		genWaitCancelRuns(r, leafKinds(), jl.addFlow)
 		genBatchRetry(r, thorough, jl.addFlow)
 	case "C03":
 		genC03(r, thorough, jl.addFlow)
@@ -216,6 +218,7 @@ func generate(prop, tier string, seed uint64, jl *jobList) int {
 		genInjected(r, thorough, "cancel", jl.addFlow)
 	case "leafcancel":
 		genLeafInjected(r, "cancel", jl.addFlow)
+		genWaitCancelRuns(r, leafKinds(), jl.addFlow)
 	case "leaffail":
 		genLeafInjected(r, "fail", jl.addFlow)
 	case "C10":
